@@ -31,11 +31,31 @@ if REPO != '/repo':
 HOLDS, VIOLATION, INCONCLUSIVE, HARNESS_ERROR, SKIPPED = 'holds', 'violation', 'inconclusive', 'harness_error', 'skipped'
 
 
+_CACHE_DIRS = []
+
+
 def isolate_cache():
-    """appdirs cache -> fresh temp dir (the checks neither read nor write the user's ADSG cache)"""
-    d = tempfile.mkdtemp(prefix='adsg_verif_cache_')
+    """appdirs cache -> fresh temp dir (the checks neither read nor write the user's ADSG cache). The directories live
+    under one per-run directory (VERIF_RUN_TMP, removed when the run ends); outside a run they are removed at exit."""
+    base = os.environ.get('VERIF_RUN_TMP')
+    if base and os.path.isdir(base):
+        d = tempfile.mkdtemp(prefix='cache_', dir=base)
+    else:
+        d = tempfile.mkdtemp(prefix='adsg_verif_cache_')
+        if not _CACHE_DIRS:
+            import atexit
+            atexit.register(cleanup_caches)
+    _CACHE_DIRS.append(d)
     os.environ['XDG_CACHE_HOME'] = d
     return d
+
+
+def cleanup_caches(keep=None):
+    import shutil
+    for d in list(_CACHE_DIRS):
+        if d != keep:
+            shutil.rmtree(d, ignore_errors=True)
+            _CACHE_DIRS.remove(d)
 
 
 class InstanceResult(dict):
@@ -110,6 +130,17 @@ def match_known(record, known):
 def _worker(args):
     mod_name, inst, tier, seed, cap_s = args
     t0 = time.time()
+    worker_cache = os.environ.get('XDG_CACHE_HOME')
+    try:
+        return _worker_inner(mod_name, inst, tier, seed, t0)
+    finally:
+        # cache directories an instance made for itself (two problems in one cache, ...) go away with the instance
+        cleanup_caches(keep=worker_cache)
+        if worker_cache:
+            os.environ['XDG_CACHE_HOME'] = worker_cache
+
+
+def _worker_inner(mod_name, inst, tier, seed, t0):
     try:
         mod = importlib.import_module(mod_name)
         res = mod.run_instance(inst, tier=tier, seed=seed)
@@ -163,6 +194,17 @@ def _pool_init():
 
 
 def run_check(prop, mod_name, tier, seed, jobs=None, min_concluded=0.9, only=None):
+    import shutil
+    run_tmp = tempfile.mkdtemp(prefix='adsg_verif_run_')
+    os.environ['VERIF_RUN_TMP'] = run_tmp
+    try:
+        return _run_check(prop, mod_name, tier, seed, jobs=jobs, min_concluded=min_concluded, only=only)
+    finally:
+        os.environ.pop('VERIF_RUN_TMP', None)
+        shutil.rmtree(run_tmp, ignore_errors=True)
+
+
+def _run_check(prop, mod_name, tier, seed, jobs=None, min_concluded=0.9, only=None):
     t0 = time.time()
     isolate_cache()
     mod = importlib.import_module(mod_name)
